@@ -8,20 +8,20 @@ set -u
 INPLACE=0; [ "${1:-}" = "--inplace" ] && { INPLACE=1; shift; }
 PATCH="$(readlink -f "$1")"; shift
 IDS="${*:-C01 C02 C03 C04 C05 C06 C07 C08 C09 C10 C11 C12 C13 C14 C15 C16 C17 C18}"
-export VERIF_EVIDENCE_DIR=/tmp/mutant-evidence; mkdir -p "$VERIF_EVIDENCE_DIR"
+export VERIF_EVIDENCE_DIR=${MUTLAB:-/tmp/mutlab}-evidence; mkdir -p "$VERIF_EVIDENCE_DIR"
 if [ $INPLACE -eq 1 ]; then
   V=/verif
   [ -z "$(git -C /repo status --porcelain --untracked-files=no)" ] || { echo "/repo is dirty, refusing"; exit 2; }
   git -C /repo apply "$PATCH" || { echo "patch does not apply"; exit 2; }
   trap 'git -C /repo checkout -- . ; echo "[/repo restored]"' EXIT
 else
-  L=/tmp/mutlab; V=$L/verif; mkdir -p $L
+  L=${MUTLAB:-/tmp/mutlab}; V=$L/verif; mkdir -p $L
   [ -d $L/repo ] || git -C /repo worktree add -q --detach $L/repo HEAD
   (cd $L/repo && git checkout -q --detach "$(git -C /repo rev-parse HEAD)" && git checkout -- . && git clean -fdq -e target)
   mkdir -p $V && rsync -a --delete --exclude 'harness/target' --exclude 'harness/fuzz/target' --exclude 'harness/fuzz/corpus' --exclude 'harness/fuzz/artifacts' --exclude '.git' --exclude 'replays/found' --exclude 'design-probes' ${VERIF_SRC:-/verif}/ $V/
   sed -i "s#path = \"/repo\"#path = \"$L/repo\"#" $V/harness/Cargo.toml $V/typecheck/Cargo.toml
   (cd $L/repo && git apply "$PATCH") || { echo "patch does not apply"; exit 2; }
-  trap '(cd /tmp/mutlab/repo && git checkout -- .)' EXIT
+  trap '(cd ${MUTLAB:-/tmp/mutlab}/repo && git checkout -- .)' EXIT
 fi
 cd $V
 FIRED=""
